@@ -214,3 +214,34 @@ DISTS = [
     ("flory_schulz", "flory_schulz(9e-4)", (0.0009,)),
     ("gauss", "gauss(30.0, 0)", (30.0, 0.0)),
 ]
+
+
+# ------------------------------------------------------------------ numbers
+# Every numeric slot of the notation x a menu of number texts spanning magnitudes 1e-7 .. 3e7 and 1 .. 10 significant
+# digits (a printer that rounds, truncates or switches to a short exponent form loses some of them).
+NUMBER_TEXTS = [
+    "3", "12", "72", "0.11", "9e-4", "2.5e-3", "1e-7", "0.123456789", "7.0000001", "100.12345", "1500.5", "65536", "99999.9",
+    "123456.789", "999999.5", "1000000.5", "1234567", "3120450", "3120485", "31204857", "1e6", "1.5e7", "0.30000000000000004",
+    "2.675", "1234.5678901",
+]
+DIST_SLOTS = [
+    ("gauss", "gauss({0}, 10)"), ("gauss", "gauss(3120470.5, {0})"), ("uniform", "uniform({0}, 41204858)"), ("uniform", "uniform(1, {0})"),
+    ("schulz_zimm", "schulz_zimm({0}, 2.5)"), ("schulz_zimm", "schulz_zimm(41204858, {0})"), ("log_normal", "log_normal({0}, 1.1)"),
+    ("log_normal", "log_normal(50, {0})"), ("poisson", "poisson({0})"), ("flory_schulz", "flory_schulz({0})"),
+]
+
+
+def number_strings():
+    """level -> [(string, slot, number text)]: each numeric slot filled with each number text"""
+    out = {"desc": [], "sto": [], "sys": []}
+    for n in NUMBER_TEXTS:
+        out["desc"].append((f"[$|{n}|]", "weight", n))
+        out["desc"].append((f"[<2|{n} 1 0.5|]", "list-entry", n))
+        for fam, tpl in DIST_SLOTS:
+            out["sto"].append(("{[][$]CC[$]; [$][H][]}|" + tpl.format(n) + "|", "dist:" + tpl, n))
+        out["sto"].append(("{[][$|" + n + "|]CC[$]; [$][H][]}|gauss(100, 10)|", "weight-in-object", n))
+        out["sys"].append((f"CCO.|{n}|", "absolute-mass", n))
+        if float(n) <= 100:
+            out["sys"].append((f"CCO.|{n}%|N.|31204857|", "percent", n))
+        out["sys"].append((f"CCO.|10%|CC.|{n}|", "absolute-mass-2", n))
+    return out
